@@ -43,7 +43,7 @@ def escapeChar (c : Char) : List Char := 'u' :: hex4 c.toNat ++ ['_']
 
 def unnamed : Name := "unnamed".toList
 
-/-! ### HLSL `namer.sanitize` (reservedPrefixes is empty in `newNamer`) -/
+/-! ### HLSL `namer.sanitize` -/
 
 def hlslFilter : Name → Name → Name
   | [], buf => buf
@@ -57,14 +57,22 @@ def hlslFilter : Name → Name → Name
       let buf := if !buf.isEmpty && !endsWith_ buf then buf ++ ['_'] else buf
       hlslFilter rest (buf ++ escapeChar c)
 
+/-- `reservedPrefixes` of `newNamer`: the names the writer generates without the namer (wrapped constructors, zero
+values and their array typedefs); a label with such a prefix gets `gen_` in front. -/
+def hlslReservedPrefix (r : Name) : Bool :=
+  "Construct".toList.isPrefixOf r || "ZeroValue".toList.isPrefixOf r
+  || "ret_Construct".toList.isPrefixOf r || "ret_ZeroValue".toList.isPrefixOf r
+
+def hlslGen (r : Name) : Name := if hlslReservedPrefix r then "gen_".toList ++ r else r
+
 def hlslSanitize (label : Name) : Name :=
   if label.isEmpty then unnamed else
   let s := trimTrailingUnderscores (dropLeadingDigits label)
   if s.isEmpty then unnamed else
-  if !hasDoubleUnderscore s && s.all isIdChar then s
+  if !hasDoubleUnderscore s && s.all isIdChar then hlslGen s
   else
     let r := trimTrailingUnderscores (hlslFilter s [])
-    if r.isEmpty then unnamed else r
+    if r.isEmpty then unnamed else hlslGen r
 
 /-! ### MSL `sanitizeName` -/
 
